@@ -2,6 +2,7 @@ import OvniModel.Emu.Stream
 import OvniModel.Emu.Meta
 import OvniModel.Lemmas.Stream
 import OvniModel.Lemmas.Meta
+import OvniModel.Props.C14
 
 /-!
 # C12 — structurally invalid or incomplete traces are rejected
@@ -253,6 +254,51 @@ theorem unrequired_model_rejected (registered : List Nat) (ths : List Meta) (m :
         exact hreq t ht (by simpa using hd)
     rw [if_neg this]; exact ⟨_, rfl⟩
   · rw [if_pos (by simpa using hr)]; exact ⟨_, rfl⟩
+
+/-- **Version-mismatched metadata is refused, whichever thread carries it.**
+    If some thread — first, last or in between — requires a registered model
+    with a version string that does not parse or is not compatible with the
+    model's version (the `.error` outcome of `should_enable`, characterised by
+    `Props.C14.shouldEnable_error_iff`), the probe of `emu_init` aborts. -/
+theorem mismatched_require_rejected (models : List (List Nat × List Nat × Nat)) (ths : List Meta)
+    (name ver : List Nat) (ch : Nat) (hv : Ovni.Version.Ver)
+    (hm : (name, ver, ch) ∈ models) (hp : Ovni.Version.parse (some ver) = some hv)
+    (t : Meta) (ht : t ∈ ths)
+    (hbad : Ovni.Version.shouldEnable hv (Ovni.Version.reqFor name t.require) = .error) :
+    versionGate models ths = .error .reqVersion := by
+  unfold versionGate
+  have hnone : Ovni.Version.enabledSet false (ths.map (·.require)) models = none := by
+    induction models with
+    | nil => cases hm
+    | cons x xs ih =>
+      obtain ⟨n, v, c⟩ := x
+      unfold Ovni.Version.enabledSet
+      rcases List.mem_cons.1 hm with h | h
+      · cases h
+        have hab : Ovni.Version.modelEnabled false ver
+            ((ths.map (·.require)).map (Ovni.Version.reqFor name)) (Ovni.Version.alwaysOn ch) = none := by
+          rw [Ovni.Props.C14.abort_iff]
+          refine Or.inr ⟨hv, hp, Ovni.Version.reqFor name t.require, ?_, hbad⟩
+          exact List.mem_map.2 ⟨t.require, List.mem_map.2 ⟨t, ht, rfl⟩, rfl⟩
+        simp only [hab]
+      · cases hx : Ovni.Version.modelEnabled false v
+            ((ths.map (·.require)).map (Ovni.Version.reqFor n)) (Ovni.Version.alwaysOn c) with
+        | none => rfl
+        | some en => simp only [ih h]
+  rw [hnone]
+
+/-- the two-thread situation: the first thread requires nanos6 1.1.0, the second
+    one an incompatible major, a too-new minor, or an unparsable version -/
+example : ∀ bad ∈ [[50, 46, 48, 46, 48], [49, 46, 57, 57, 46, 48], [49, 46, 120, 46, 48]],
+    versionGate Ovni.Generated.modelVersions
+      [{ goodMeta with reqs := [([110, 97, 110, 111, 115, 54], [49, 46, 49, 46, 48])] },
+       { goodMeta with tid := 101, reqs := [([110, 97, 110, 111, 115, 54], bad)] }] = .error .reqVersion := by
+  decide
+
+example : versionGate Ovni.Generated.modelVersions
+      [{ goodMeta with reqs := [([110, 97, 110, 111, 115, 54], [49, 46, 49, 46, 48])] },
+       { goodMeta with tid := 101, reqs := [([110, 97, 110, 111, 115, 54], [49, 46, 48, 46, 55])] }] = .ok () := by
+  decide
 
 /-- A size-checked event stored with any other payload size is refused. -/
 theorem wrong_payload_size_rejected (mcv : Nat × Nat × Nat) (ok : Nat → Bool) (n : Nat)
